@@ -121,6 +121,15 @@ pub fn cases(tier: &str, seed: u64) -> Vec<Case> {
                         v.push(parse_case(&m, "byte±1"));
                     }
                 }
+                // every pair of adjacent bytes set to the extremes of a 16-bit length (arithmetic on a
+                // length read from the wire must not overflow in its own width)
+                for i in (0..bytes.len().saturating_sub(1)).step_by(step) {
+                    for val in [0xFFFFu16, 0xFFFC, 0x8000] {
+                        let mut m = bytes.to_vec();
+                        m[i..i + 2].copy_from_slice(&val.to_be_bytes());
+                        v.push(parse_case(&m, "u16-extreme"));
+                    }
+                }
             }
         }
     }
